@@ -493,7 +493,13 @@ func (g *G) expr(want *m.Type, fuel int) *m.Expr {
 			case 5, 6:
 				// a host function that recovers from the failure of its first (deferred) operand
 				g.stat("lz_try")
-				return g.call("lz_try", g.expr(want, fuel-1), g.expr(want, fuel-1))
+				first := g.expr(want, fuel-1)
+				if g.O.Poison && !hasBot && g.intn("tryfails", 2) == 0 {
+					// the deferred operand fails while a value of another type is pending inside it
+					g.stat("lz_try-failing-operand")
+					first = m.Index(m.ListE(first), m.Lit("num", "99"))
+				}
+				return g.call("lz_try", first, g.expr(want, fuel-1))
 			case 0:
 				g.stat("lz_sel4")
 				return g.call("lz_sel4", sel(), g.expr(want, fuel-1), g.expr(want, fuel-1), g.expr(want, fuel-1))
